@@ -198,8 +198,13 @@ func runC08(c *kernel.Ctx) {
 		stride = 0
 	}
 	nontriv := false
+	// the keep-alive the victim announces: none at all (a legal value), seconds, or the maximum
+	keepalive := []uint16{60, 60, 0, 5, 65535}[t.Choose(5)]
+	c.Logf("keep-alive %d", keepalive)
 	build := func(user string) (stream []byte, bounds []int) {
-		stream = mqttc.Encode(mqttc.Connect("victim", user, will))
+		cp := mqttc.Connect("victim", user, will)
+		cp.Keepalive = keepalive
+		stream = mqttc.Encode(cp)
 		bounds = append(bounds, len(stream))
 		for _, o := range ops {
 			stream = append(stream, o.pkt...)
